@@ -369,6 +369,31 @@ class Ctx:
                 module, cfg, res.violated, res.error, tail))
         return res
 
+    def apalache(self, module, args, timeout=600, name=None):
+        """Runs `apalache-mc check <args> <module>.tla` in a scratch copy of the spec directory; returns "NoError",
+        "Error" (an invariant is violated) or raises Inconclusive (tool failure / timeout)."""
+        d = os.path.join(self.specdir(), "apa-%d" % len(self.tlc_runs))
+        os.makedirs(d, exist_ok=True)
+        for f in os.listdir(self.specdir()):
+            if f.endswith(".tla"):
+                shutil.copy(os.path.join(self.specdir(), f), d)
+        t0 = time.time()
+        try:
+            p = subprocess.run(["apalache-mc", "check"] + list(args) + [module + ".tla"], cwd=d, stdout=subprocess.PIPE,
+                               stderr=subprocess.STDOUT, timeout=timeout)
+        except subprocess.TimeoutExpired:
+            raise Inconclusive("apalache %s %s timed out" % (module, " ".join(args)))
+        out = p.stdout.decode("utf-8", "replace")
+        m = re.search(r"The outcome is: (\w+)", out)
+        outcome = m.group(1) if m else None
+        log("[apalache] %s %s: %s, %.1fs" % (module, " ".join(args), outcome, time.time() - t0))
+        self.tlc_runs.append({"name": name or module, "engine": "apalache", "module": module, "args": list(args), "outcome": outcome,
+                              "seconds": round(time.time() - t0, 1)})
+        shutil.rmtree(d, ignore_errors=True)
+        if outcome not in ("NoError", "Error"):
+            raise Inconclusive("apalache %s %s failed:\n%s" % (module, " ".join(args), out[-2000:]))
+        return outcome
+
     # ---- Go driver
     def go_env(self):
         env = dict(os.environ)
